@@ -30,7 +30,6 @@ pub mod fault {
         COUNT.store(0, SeqCst);
         PANIC_AT.store(u64::MAX, SeqCst);
         FIRED.store(0, SeqCst);
-        RECORD.store(0, SeqCst);
         MASK.store(u32::MAX, SeqCst);
         KINDS.lock().unwrap_or_else(|e| e.into_inner()).clear();
     }
@@ -240,6 +239,13 @@ impl SimDatabase {
             log: Mutex::new(vec![]),
             log_on: AtomicU32::new(1),
         });
+        let db = Self::with_shared(shared);
+        db.populate(world);
+        db
+    }
+
+    /// empty database (no inputs created) sharing harness state: the target of a restore
+    pub fn with_shared(shared: Arc<Shared>) -> Self {
         let s2 = shared.clone();
         let storage = salsa::Storage::new(Some(Box::new(move |e: salsa::Event| {
             // WillCheckCancellation is emitted on every fetch: not user-visible work, not a fault point
@@ -248,8 +254,19 @@ impl SimDatabase {
                 fault::cb(Cb::Event);
             }
         })));
-        let db = SimDatabase { storage, shared };
-        db.populate(world);
+        SimDatabase { storage, shared }
+    }
+
+    /// "crash and restart with only durable state surviving": serialize, then deserialize into a
+    /// fresh database of the same type
+    #[cfg(feature = "persistence")]
+    pub fn snapshot(&mut self) -> String {
+        serde_json::to_string(&<dyn salsa::Database>::as_serialize(self)).expect("serialize")
+    }
+    #[cfg(feature = "persistence")]
+    pub fn restore(shared: Arc<Shared>, json: &str) -> Self {
+        let mut db = Self::with_shared(shared);
+        <dyn salsa::Database>::deserialize(&mut db, &mut serde_json::Deserializer::from_str(json)).expect("deserialize");
         db
     }
 
@@ -305,13 +322,15 @@ pub fn dur(d: Dur) -> Durability {
 // ---------------------------------------------------------------------------------------------
 // Salsa structs
 
-#[salsa::input]
+#[cfg_attr(feature = "persistence", salsa::input(persist))]
+#[cfg_attr(not(feature = "persistence"), salsa::input)]
 pub struct Key {
     #[returns(copy)]
     pub n: u32,
 }
 
-#[salsa::input]
+#[cfg_attr(feature = "persistence", salsa::input(persist))]
+#[cfg_attr(not(feature = "persistence"), salsa::input)]
 pub struct In {
     #[returns(copy)]
     pub f0: u32,
@@ -321,7 +340,8 @@ pub struct In {
     pub f2: u32,
 }
 
-#[salsa::tracked(debug)]
+#[cfg_attr(feature = "persistence", salsa::tracked(debug, persist))]
+#[cfg_attr(not(feature = "persistence"), salsa::tracked(debug))]
 pub struct Ts<'db> {
     #[returns(copy)]
     pub ident: V,
@@ -334,22 +354,26 @@ pub struct Ts<'db> {
     pub t1: V,
 }
 
-#[salsa::interned(debug, revisions = 1)]
+#[cfg_attr(feature = "persistence", salsa::interned(debug, persist, revisions = 1))]
+#[cfg_attr(not(feature = "persistence"), salsa::interned(debug, revisions = 1))]
 pub struct It1<'db> {
     #[returns(copy)]
     pub v: V,
 }
-#[salsa::interned(debug, revisions = 2)]
+#[cfg_attr(feature = "persistence", salsa::interned(debug, persist, revisions = 2))]
+#[cfg_attr(not(feature = "persistence"), salsa::interned(debug, revisions = 2))]
 pub struct It2<'db> {
     #[returns(copy)]
     pub v: V,
 }
-#[salsa::interned(debug, revisions = 3)]
+#[cfg_attr(feature = "persistence", salsa::interned(debug, persist, revisions = 3))]
+#[cfg_attr(not(feature = "persistence"), salsa::interned(debug, revisions = 3))]
 pub struct It3<'db> {
     #[returns(copy)]
     pub v: V,
 }
-#[salsa::interned(debug, revisions = usize::MAX)]
+#[cfg_attr(feature = "persistence", salsa::interned(debug, persist, revisions = usize::MAX))]
+#[cfg_attr(not(feature = "persistence"), salsa::interned(debug, revisions = usize::MAX))]
 pub struct ItInf<'db> {
     #[returns(copy)]
     pub v: V,
@@ -360,6 +384,7 @@ pub struct ItInf<'db> {
 pub struct Acc(pub u32);
 
 #[derive(Clone, Copy, Debug, PartialEq, Eq, Hash, salsa::SalsaValue)]
+#[cfg_attr(feature = "persistence", derive(serde::Serialize, serde::Deserialize))]
 pub enum ItH<'db> {
     I1(It1<'db>),
     I2(It2<'db>),
@@ -405,6 +430,7 @@ pub fn intern_any<'db>(db: &'db dyn SimDb, t: usize, v: u32) -> ItH<'db> {
 
 /// result of maker nodes: value + the handles in the body's handle list at return
 #[derive(Clone, Debug, PartialEq, Eq, salsa::SalsaValue)]
+#[cfg_attr(feature = "persistence", derive(serde::Serialize, serde::Deserialize))]
 pub struct MkOut<'db> {
     pub v: V,
     pub hs: Vec<Ts<'db>>,
@@ -581,7 +607,8 @@ fn exec_key<'db>(db: &'db dyn SimDb, k: Key, r0: u32) -> BodyOut<SalsaHost<'db>>
 // ---------------------------------------------------------------------------------------------
 // Tracked functions
 
-#[salsa::tracked(returns(copy))]
+#[cfg_attr(feature = "persistence", salsa::tracked(returns(copy), persist))]
+#[cfg_attr(not(feature = "persistence"), salsa::tracked(returns(copy)))]
 pub fn q_plain(db: &dyn SimDb, k: Key) -> V {
     V(exec_key(db, k, 0).ret)
 }
@@ -604,18 +631,21 @@ pub fn set_lru_cap(db: &mut SimDatabase, cap: usize) {
     q_lru::set_lru_capacity(db, cap);
 }
 
-#[salsa::tracked(returns(copy))]
+#[cfg_attr(feature = "persistence", salsa::tracked(returns(copy), persist))]
+#[cfg_attr(not(feature = "persistence"), salsa::tracked(returns(copy)))]
 pub fn q_multi(db: &dyn SimDb, k: Key, a: u32) -> V {
     V(exec_key(db, k, a).ret)
 }
 
-#[salsa::tracked(returns(copy))]
+#[cfg_attr(feature = "persistence", salsa::tracked(returns(copy), persist))]
+#[cfg_attr(not(feature = "persistence"), salsa::tracked(returns(copy)))]
 pub fn q_zero(db: &dyn SimDb) -> V {
     let node = db.sh().prog.node_of_kind(Kind::Zero).expect("program has a Zero node");
     V(exec(db, node, 0, 0, None, None).ret)
 }
 
-#[salsa::tracked]
+#[cfg_attr(feature = "persistence", salsa::tracked(persist))]
+#[cfg_attr(not(feature = "persistence"), salsa::tracked)]
 pub fn q_ref(db: &dyn SimDb, k: Key) -> Vec<u32> {
     let o = exec_key(db, k, 0);
     let mut v = vec![o.ret];
@@ -623,13 +653,15 @@ pub fn q_ref(db: &dyn SimDb, k: Key) -> Vec<u32> {
     v
 }
 
-#[salsa::tracked]
+#[cfg_attr(feature = "persistence", salsa::tracked(persist))]
+#[cfg_attr(not(feature = "persistence"), salsa::tracked)]
 pub fn q_mk<'db>(db: &'db dyn SimDb, k: Key) -> MkOut<'db> {
     let o = exec_key(db, k, 0);
     MkOut { v: V(o.ret), hs: o.ts, its: o.it }
 }
 
-#[salsa::tracked(returns(copy))]
+#[cfg_attr(feature = "persistence", salsa::tracked(returns(copy), persist))]
+#[cfg_attr(not(feature = "persistence"), salsa::tracked(returns(copy)))]
 pub fn q_on_ts<'db>(db: &'db dyn SimDb, t: Ts<'db>) -> V {
     let node = db.sh().prog.node_of_kind(Kind::OnTs).expect("program has an OnTs node");
     V(exec(db, node, t.as_id().as_bits(), 0, Some(t), None).ret)
@@ -646,19 +678,23 @@ fn on_it<'db>(db: &'db dyn SimDb, h: ItH<'db>) -> V {
     V(exec(db, node, h.id().as_bits(), 0, None, Some(h)).ret)
 }
 
-#[salsa::tracked(returns(copy))]
+#[cfg_attr(feature = "persistence", salsa::tracked(returns(copy), persist))]
+#[cfg_attr(not(feature = "persistence"), salsa::tracked(returns(copy)))]
 pub fn q_on_it1<'db>(db: &'db dyn SimDb, h: It1<'db>) -> V {
     on_it(db, ItH::I1(h))
 }
-#[salsa::tracked(returns(copy))]
+#[cfg_attr(feature = "persistence", salsa::tracked(returns(copy), persist))]
+#[cfg_attr(not(feature = "persistence"), salsa::tracked(returns(copy)))]
 pub fn q_on_it2<'db>(db: &'db dyn SimDb, h: It2<'db>) -> V {
     on_it(db, ItH::I2(h))
 }
-#[salsa::tracked(returns(copy))]
+#[cfg_attr(feature = "persistence", salsa::tracked(returns(copy), persist))]
+#[cfg_attr(not(feature = "persistence"), salsa::tracked(returns(copy)))]
 pub fn q_on_it3<'db>(db: &'db dyn SimDb, h: It3<'db>) -> V {
     on_it(db, ItH::I3(h))
 }
-#[salsa::tracked(returns(copy))]
+#[cfg_attr(feature = "persistence", salsa::tracked(returns(copy), persist))]
+#[cfg_attr(not(feature = "persistence"), salsa::tracked(returns(copy)))]
 pub fn q_on_itinf<'db>(db: &'db dyn SimDb, h: ItInf<'db>) -> V {
     on_it(db, ItH::Inf(h))
 }
